@@ -38,7 +38,16 @@ func init() {
 
 var c17ends = []int{0, 'a', 0xFF, 0x100, 0x101, 0x2000, 0xFFFE}
 
+// probes that are never range endpoints: characters whose low 8 or 16 bits alias a boundary character, the replacement
+// character, supplementary planes
+var c17extraProbes = []int{0x161, 0x1ff, 0x200, 0x2061, 0xff61, 0xfffd, 0x10000, 0x10041, 0x10061, 0x100ff, 0x10100, 0x1000a, 0x2000b, 0x12000, 0x1f600, 0x10ffff}
+
 func c17probes() []int {
+	out := c17endProbes()
+	return append(out, c17extraProbes...)
+}
+
+func c17endProbes() []int {
 	seen := map[int]bool{}
 	var out []int
 	for _, e := range c17ends {
@@ -255,7 +264,34 @@ func genC17(g *Gen) {
 	r := g.Rand()
 	// random histories (length 2 on the classes, 3..6 everywhere); endpoints also from the neighbours of the boundary set
 	n := g.Pick(1500, 200000)
-	probes := c17probes()
+	probes := c17endProbes()
+	// long histories: dozens to hundreds of registrations on one target, newer ranges nested in older ones and the other way round
+	for _, tg := range targets[:2] {
+		for _, cnt := range []int{33, 64, 65, 66, 70, 129, 257, 300} {
+			if cnt > g.Pick(130, 300) {
+				continue
+			}
+			for variant := 0; variant < 3; variant++ {
+				seg := []Ev{{"op": "new", "target": tg}}
+				if variant != 1 {
+					seg = append(seg, Ev{"op": "add", "lo": 0x100, "hi": 0xFFFE, "ref": "A"})
+				}
+				for i := 0; i < cnt; i++ {
+					lo := 0x2000 - i
+					hi := 0x2000 + i
+					if variant == 2 {
+						lo, hi = 0x100+i, 0x101+i
+					}
+					if i%9 == 8 {
+						lo, hi = 'a'-i%5, 0x100+i
+					}
+					seg = append(seg, Ev{"op": "add", "lo": lo, "hi": hi, "ref": []string{"B", "nil", "A"}[i%3]})
+				}
+				seg = append(seg, Ev{"op": "add", "lo": 0x1FFF, "hi": 0x2001, "ref": "B"}, Ev{"op": "add", "lo": 0xFF, "hi": 0x100, "ref": "nil"})
+				g.Run("long histories:"+tg, seg)
+			}
+		}
+	}
 	for i := 0; i < n; i++ {
 		tg := targets[r.Intn(len(targets))]
 		seg := []Ev{{"op": "new", "target": tg}}
